@@ -132,7 +132,10 @@ static int32_t transport_invoke(ObjectCxt h, ObjectOp op, ObjectArg *args, Objec
     na[ibo + i].b.size = sz;
   }
   for (i = 0; i < noi; i++) na[ioi + i].o = args[ioi + i].o;
-  for (i = 0; i < noo; i++) na[ioo + i].o = Object_NULL;
+  /* an in-process call hands the skeleton the caller's own argument array: with BENCH_KEEP_OO the
+   * initial content of the output object slots travels too (default: a remote transport, which
+   * passes nothing the counts do not describe) */
+  for (i = 0; i < noo; i++) na[ioo + i].o = getenv("BENCH_KEEP_OO") ? args[ioo + i].o : Object_NULL;
 
   /* (3) invoke */
   status = Object_invoke(t->inner, op, na, k);
